@@ -36,6 +36,10 @@ CORPUS = [
     ("array", ("scalar", 0), [3, 4], [1, 0]),
     ("array", ("scalar", 4), [None, 2, 3], [0, 1, 2]),
     ("array", ("scalar", 4), [None, 2, 3], [2, 0, 1]),
+    # capacity strings (values forced, see FORCED) in front of arrays of 8-byte / 4-byte items, also inside a nested dynamic struct
+    ("struct", "RecCap", [("count", ("scalar", 2)), ("tag", ("string",)), ("x", ("array", ("scalar", 2), [None], [0])), ("y", ("array", ("scalar", 0), [None], [0]))]),
+    ("struct", "RecCap2", [("t1", ("string",)), ("t2", ("string",)), ("m", ("array", ("scalar", 4), [None, 2], [1, 0])),
+                           ("s", ("struct", "RecCapIn", [("q", ("string",)), ("w", ("array", ("scalar", 2), [None], [0]))]))]),
     # three array levels on one path: the index arguments are numbered across the levels
     ("struct", "Grid", [("cells", ("array", ("struct", "Cell", [("corners", ("array", ("struct", "Corner", [("coords", ("array", ("scalar", 0), [3], [0]))]), [2, 2], [0, 1]))]), [None], [0]))]),
 ]
@@ -242,6 +246,8 @@ def make_object(t, r, cache, forms=("py", "py", "nd")):
     for _ in range(20):
         d, e = T.val(t, r)
         form = r.choice(forms)
+        if t[0] == "struct" and t[1] in FORCED:
+            d, e, form = FORCED[t[1]][0], FORCED[t[1]][1], "py"
         if form == "py" and T.has_zero_nd(t, d):
             continue
         arg = T.to_py(t, d, cache, form)
@@ -257,6 +263,14 @@ def make_object(t, r, cache, forms=("py", "py", "nd")):
     return None, None, None, None
 
 
+# corpus types that need a particular VALUE: strings created from a capacity that is not a multiple of 8 in front of further dynamic
+# fields (multi-byte leaves behind them must still start on the slot grid relative to the object)
+FORCED = {
+    "RecCap": ({"count": 1, "tag": ("CAP", 5), "x": ("ARR", [3], [1, 2, 3]), "y": ("ARR", [2], [1.0, 2.0])},
+               {"count": 1, "tag": "", "x": ("ARR", [3], [1, 2, 3]), "y": ("ARR", [2], [1.0, 2.0])}),
+    "RecCap2": ({"t1": ("CAP", 3), "t2": ("CAP", 10), "m": ("ARR", [2, 2], [[1, 2], [3, 4]]), "s": {"q": ("CAP", 1), "w": ("ARR", [1], [7])}},
+                {"t1": "", "t2": "", "m": ("ARR", [2, 2], [[1, 2], [3, 4]]), "s": {"q": "", "w": ("ARR", [1], [7])}}),
+}
 SHARED = ("struct", "PairSO", [("a", ("array", ("scalar", 2), [None], [0])), ("b", ("array", ("scalar", 2), [None], [0]))])
 
 
